@@ -213,6 +213,51 @@ static void space_paths(void)
 	}
 }
 
+/* long stored paths and names (level 3 carries up to 1 MiB): components of the kinds the invariant forbids placed far inside
+ * them, around offsets 255/256, 65535/65536 and at the very end */
+static void space_longpaths(void)
+{
+	static const size_t totals[] = { 255, 256, 257, 4096, 65534, 65535, 65536, 65537, 200000 };
+	static const char *bad[] = { "..", ".", "", "...", "..a", "a..", "." "\\" ".." };
+	static uint8_t pth[200100], nam[200100];
+	unsigned ti, bi, where, form;
+	for (ti = 0; ti < sizeof totals / sizeof *totals; ++ti)
+	for (bi = 0; bi < sizeof bad / sizeof *bad; ++bi)
+	for (where = 0; where < 5; ++where)
+	for (form = 0; form < 3; ++form) {
+		size_t T = totals[ti], n = 0, at, bl = strlen(bad[bi]), i;
+		ref_hdr f;
+		/* the bad component starts at: the beginning, just before 255, just before 65535, the middle, the end */
+		at = where == 0 ? 0 : where == 1 ? 252 : where == 2 ? 65532 : where == 3 ? T / 2 : T;
+		if (at > T) continue;
+		if (!vf_case("long %s of about %zu bytes, component '%s' at %zu, OS %c", form == 0 ? "path header" : form == 1 ? "name header" : "path header of a directory entry", T, bad[bi], at, form == 2 ? 'M' : 'U')) continue;
+		while (n < T + 8 && n < sizeof pth - 16) {
+			if (n >= at && at != (size_t) -1) {
+				for (i = 0; i < bl; ++i) pth[n++] = bad[bi][i] == '\\' ? 0xFF : (uint8_t) bad[bi][i];
+				pth[n++] = 0xFF;
+				at = (size_t) -1;
+				continue;
+			}
+			pth[n++] = 'a'; pth[n++] = (uint8_t) ('b' + n % 20); pth[n++] = 0xFF;
+		}
+		hdr_init(&f, 3, form == 2 ? "-lhd-" : "-lh0-");
+		f.os = form == 2 ? 'M' : 'U';
+		if (form == 1) {
+			/* the same bytes as a file name: separators inside a name are rewritten, never interpreted */
+			for (i = 0; i < n; ++i) nam[i] = pth[i] == 0xFF ? (i % 2 ? '/' : '\\') : pth[i];
+			add_ext(&f, 1, nam, n);
+			add_ext(&f, 2, "d\xff", 2);
+		} else {
+			add_ext(&f, 2, pth, n);
+			if (form == 0) add_ext(&f, 1, "n", 1);
+		}
+		f.size = f.packed = form == 2 ? 0 : 5;
+		f.crc = form == 2 ? 0 : ref_crc16(0, DATA5, 5);
+		check_record(&f, DATA5, f.packed, 1 | 2, "c11");
+		vf_nontrivial(vf_mix(ti * 64 + bi * 8 + where, form) + 5);
+	}
+}
+
 /* ====================================================================== seeds for C12 / C05-perturbed */
 
 static uint8_t SEEDS[256][512];
@@ -759,6 +804,7 @@ int main(int argc, char **argv)
 {
 	vf_init(argc, argv);
 	if (!strcmp(VF.space, "paths")) space_paths();
+	else if (!strcmp(VF.space, "longpaths")) space_longpaths();
 	else if (!strcmp(VF.space, "integrity")) space_integrity(12);
 	else if (!strcmp(VF.space, "perturbed-ok")) space_integrity(5);
 	else if (!strcmp(VF.space, "chains")) space_chains();
